@@ -42,6 +42,7 @@ type c10CtlCase struct {
 	MaxCacheSize       int               `json:"max_cache_size"`
 	OptimisticCache    bool              `json:"optimistic_cache,omitempty"`
 	OptimisticCacheTtl int               `json:"optimistic_cache_ttl,omitempty"`
+	Quiet              bool              `json:"quiet,omitempty"` // dump cache and kernel map after the LAST operation only (large histories)
 	Ops                []c10CtlOp        `json:"ops"`
 }
 
@@ -194,7 +195,7 @@ func c10CtlRun(cs c10CtlCase) (res c10CtlResult) {
 		panic(err)
 	}
 	defer func() { ctrl.Close() }()
-	for _, op := range cs.Ops {
+	for opIdx, op := range cs.Ops {
 		var opErr error
 		var stepNow, stepNow2 int64
 		fqdn := dnsmessage.CanonicalName(op.Host)
@@ -297,6 +298,17 @@ func c10CtlRun(cs c10CtlCase) (res c10CtlResult) {
 				break
 			}
 			time.Sleep(time.Millisecond)
+		}
+		if cs.Quiet && opIdx != len(cs.Ops)-1 {
+			recMu.Lock()
+			calls = nil
+			recMu.Unlock()
+			qs := c10CtlStep{Live: []c10CtlLive{}, Shadow: [][2]string{}, Calls: []c10CtlCall{}, Key: key, Base: base, Fqdn: fqdn}
+			if opErr != nil {
+				qs.Err = opErr.Error()
+			}
+			res.Steps = append(res.Steps, qs)
+			continue
 		}
 		time.Sleep(200 * time.Microsecond)
 		st := c10CtlStep{Live: []c10CtlLive{}, Shadow: [][2]string{}, Calls: []c10CtlCall{}, Now: stepNow, Now2: stepNow2, Key: key, Base: base, Fqdn: fqdn}
